@@ -102,7 +102,9 @@ def check_cell(cell):
     flat = encutil.flat_json_of_case(case)
     n_enc = 0
     # recompute mode (the default), declared lengths given as 0 and as garbage
-    for lengths, total, tag in (({}, 0, 'recompute, lengths 0'), ({1: 99, 3: 3, 4: 1000}, 12345, 'recompute, declared lengths garbage')):
+    for lengths, total, tag in (({}, 0, 'recompute, lengths 0'), ({1: 99, 3: 3, 4: 1000}, 12345, 'recompute, declared lengths garbage'),
+                                ({1: 3, 2: 77, 3: 999, 4: 5}, 1, 'recompute, declared lengths garbage (section 2 too long)'),
+                                ({1: 1000, 2: 4, 3: 7, 4: 4}, 8, 'recompute, declared lengths garbage (every section too short)')):
         fj = encutil.flat_json_of_case(case, lengths=lengths, total=total)
         o = sut.call(encoder(False).process, fj)
         n_enc += 1
